@@ -1142,7 +1142,7 @@ class Interp:
         if isinstance(st, ast.Expr):
             v = st.value
             if isinstance(v, ast.Yield):
-                yields.append(self.eval(v.value, sc))
+                yields.append(self.eval(v.value, sc) if v.value is not None else Const(None))
                 return
             if isinstance(v, ast.YieldFrom):
                 yields.extend(self.iterate(self.eval(v.value, sc), v))
@@ -1212,6 +1212,23 @@ class Interp:
             if isinstance(owner, FuncInfo):
                 fi = owner.children.get(st.name)
             sc.vars[st.name] = Fn("repo", func=fi, name=st.name, closure=sc, node=st)
+            return
+        if isinstance(st, (ast.With, ast.AsyncWith)) and len(st.items) == 1 and self._contextmanager_call(st.items[0].context_expr, sc) is not None:
+            # `with cm(...):` where cm is a generator function of the package under @contextmanager: the statements up to its
+            # yield run on entry, the rest on exit (inside `try: yield / finally:` also when the body raises; otherwise only
+            # when it does not)
+            fi, gsc, pre, post, guarded, yielded = self._contextmanager_call(st.items[0].context_expr, sc)
+            self.exec_block(pre, gsc, [])
+            if st.items[0].optional_vars is not None:
+                self.bind(st.items[0].optional_vars, self.eval(yielded, gsc) if yielded is not None else Const(None), sc)
+            if guarded:
+                try:
+                    self.exec_block(st.body, sc, yields)
+                finally:
+                    self.exec_block(post, gsc, [])
+            else:
+                self.exec_block(st.body, sc, yields)
+                self.exec_block(post, gsc, [])
             return
         if isinstance(st, (ast.With, ast.AsyncWith)):
             entered = []
@@ -1516,6 +1533,39 @@ class Interp:
         if is_gen and self._is_generator(fnode):
             return ListLit(yields)
         return ret
+
+    def _contextmanager_call(self, e, sc):
+        """(function, its activation scope, statements before the yield, statements after it, after-part is in a finally?, yielded
+        expression) when ``e`` calls a generator function of the package decorated with contextlib.contextmanager whose body has one
+        yield at statement level (possibly as the only statement of a try ... finally); None otherwise"""
+        if not isinstance(e, ast.Call):
+            return None
+        try:
+            f = self.eval(e.func, sc)
+        except (ShapeError, _Raise):
+            return None
+        if not (isinstance(f, Fn) and f.kind == "repo" and f.func is not None and isinstance(f.func.node, ast.FunctionDef)):
+            return None
+        fnode = f.func.node
+        if not any(norm(d).split(".")[-1] == "contextmanager" for d in fnode.decorator_list) or not self._is_generator(fnode):
+            return None
+        body = [s_ for s_ in fnode.body if not (isinstance(s_, ast.Expr) and isinstance(s_.value, ast.Constant))]
+
+        def is_yield(s_):
+            return isinstance(s_, ast.Expr) and isinstance(s_.value, ast.Yield)
+        idx = [i for i, s_ in enumerate(body) if is_yield(s_) or (isinstance(s_, ast.Try) and len(s_.body) == 1 and is_yield(s_.body[0]) and not s_.handlers and not s_.orelse)]
+        n_yields = sum(1 for n_ in ast.walk(fnode) if isinstance(n_, (ast.Yield, ast.YieldFrom)))
+        if len(idx) != 1 or n_yields != 1:
+            raise ShapeError(f"context manager {f.func.qualname}: not of the form <setup>; yield; <teardown> (or try: yield / finally: <teardown>)")
+        i = idx[0]
+        st_y = body[i]
+        guarded = isinstance(st_y, ast.Try)
+        yexpr = (st_y.body[0] if guarded else st_y).value.value
+        post = (list(st_y.finalbody) if guarded else []) + body[i + 1:]
+        args, kwargs = self._elts(e.args, sc), OrderedDict((k.arg, self.eval(k.value, sc)) for k in e.keywords if k.arg)
+        gsc = self.module_scope(f.func.module).child(owner=f.func)
+        self.bind_params(fnode.args, args, kwargs, gsc, f.func.qualname)
+        return f.func, gsc, body[:i], post, guarded, yexpr
 
     @staticmethod
     def _is_generator(fnode):
